@@ -195,10 +195,11 @@ class VolumeImg(VolumeGrid):
         A_inv = np.linalg.inv(A)
         # If A is diagonal, ndimage.affine_transform is clever-enough
         # to use a better algorithm
+        # ndimage.affine_transform computes input = dot(A, output) + offset:
+        # pre-multiply b so that offset = dot(A_inv, b) is the translation itself
+        b = np.dot(A, b)
         if np.all(np.diag(np.diag(A)) == A):
             A = np.diag(A)
-        else:
-            b = np.dot(A, b)
         # For images with dimensions larger than 3D:
         data_shape = list(data.shape)
         if len(data_shape) > 3:
